@@ -80,7 +80,7 @@ def fam_handshake(out, tier, rnd):
     steps = ["connect", "publish", "connack", "publish2", "puback", "subscribe", "dupconnack"]
     for prof in ("pub", "sub", "both"):
         for clean in (True, False):
-            for ka in (0, 2):
+            for ka in (0, 2, 2000):
                 for cut in range(len(steps) + 1):
                     for ending in ("lost", "timeout", "lost-then-timeout"):
                         w = out.world(prof)
@@ -294,6 +294,8 @@ def fam_inject(out, tier, rnd):
     # request that the prepared situations have pending, or of the inbound message they hold)
     for first, lo in ((0x40, 1), (0x50, 1), (0x70, 1), (0x90, 1), (0xB0, 2), (0xB0, 1), (0x62, 9), (0x40, 2), (0x50, 2)):
         always.append(bytes([first, 1, lo]))
+    # ... and packets of types that only a client sends, or that do not exist
+    always += [bytes([0xC0, 0]), bytes([0xE0, 0]), bytes([0x00, 0]), bytes([0xF0, 0]), bytes([0x82, 2, 0, 1]), bytes([0xA2, 2, 0, 1]), bytes([0x10, 0])]
     for prof, sit in combos:
         todo = [inj[(k * 7919 + j) % len(inj)] for j in range(per)] + always
         k += 1
@@ -306,8 +308,10 @@ def fam_inject(out, tier, rnd):
                 w.recv(A, todo[i]); i += 1; n += 1
                 if leaves_partial(todo[i - 1]):         # a partial packet is waiting: start afresh so that injections stay independent
                     break
-            if rnd.random() < 0.5 and w.due():
-                w.fire(w.due()[0])
+            if (sit == "keepalive" or rnd.random() < 0.5) and w.due():
+                w.fire(w.due()[0])                      # (with a keepalive: a tick between the abort and the report of the loss)
+                if sit == "keepalive" and w.due() and w.in_range(w.due()[0]):
+                    w.fire(w.due()[0])
             w.lost(A, "lost" if w.t[A].phase == "aborted" else "done")
             drain(w, 4)
             out.done(w)
@@ -392,6 +396,15 @@ def arg_vectors():
     V.append(("connect", dict(base, willTopic="w", willMessage="")))
     V.append(("connect", dict(base, willTopic="")))
     V.append(("connect", dict(base, willMessage="")))
+    # will options without a will (they are simply not used), and the 3.1 client id limit, which counts characters
+    V.append(("connect", dict(base, willQoS=1)))
+    V.append(("connect", dict(base, willQoS=2, willRetain=True)))
+    V.append(("connect", dict(base, willRetain=True, username="u")))
+    V.append(("connect", dict(base, willQoS=3)))
+    V.append(("connect", dict(base, version=3, clientId="\u00e9" * 23)))
+    V.append(("connect", dict(base, version=3, clientId="estaci\u00f3n-meteorol\u00f3gica1")))
+    V.append(("connect", dict(base, version=3, clientId="\u00e9" * 24)))
+    V.append(("connect", dict(base, version=4, clientId="\u00e9" * 24)))
     V.append(("connect", dict(base, clientId="")))
     V.append(("connect", dict(base, clientId="", cleanStart=False)))
     for q in (-1, 0, 1, 2, 3, None):
@@ -686,6 +699,8 @@ def fam_retrygrid(out, tier, rnd):
                             w.unsubscribe(A, ["s/1"])
                         m = mid_of(w)
                         if kind == "rel" and m > 0:
+                            if bw is None and T <= 7:
+                                w.set(A, "timeout", 1000)      # the PUBREL is first sent under another timeout than its PUBLISH was
                             w.recv(A, W.ack("PUBREC", m))
                         n = 0
                         fac = bw[1] if bw else 2
@@ -823,13 +838,26 @@ def fam_resume(out, tier, rnd):
                                         if seen:
                                             t, q, i = seen[0]
                                             w.recv(A, W.ack("PUBCOMP" if t == "PUBREL" else ("PUBACK" if q == 1 else "PUBREC"), i))
-                                w.lost(A, "lost"); drain(w, 2)
+                                w.lost(A, "lost")
+                                if stage2 == "lost-before-connack" and rnd.random() < 0.7:
+                                    # only the loss notification runs now: the connect timeout of this abandoned handshake comes due while the
+                                    # third connection is up
+                                    while w.due() and w.due()[0].at - W.clock.now <= 200 and w.in_range(w.due()[0]):
+                                        w.fire(w.due()[0])
+                                else:
+                                    drain(w, 2)
                                 # third connection: resumes or clears, then every acknowledgement in wire order
                                 w.build(A); w.set(A, "onDisconnection", 1); w.set(A, "window", 3)
                                 mark = len(w.lines)
                                 w.connect(A, keepalive=0, cleanStart=clean3, version=v3)
                                 w.publish(A, "v", "c3-early", 1)
                                 w.recv(A, W.connack(0, 0 if clean3 else 1))
+                                if rnd.random() < 0.5:
+                                    # the broker stays silent for a while: retransmissions on the third connection, and whatever timers
+                                    # the earlier connections left behind come due while it is up
+                                    n = 0
+                                    while n < 7 and w.due() and w.in_range(w.due()[0]) and w.t[A].phase == "open":
+                                        w.fire(w.due()[0]); n += 1
                                 for _ in range(12):
                                     todo = []
                                     for t, q, i in written_ids(w, mark):
